@@ -7,7 +7,7 @@ is_file()/is_symlink() like a POSIX file system (is_file follows links), `open` 
 `os.readlink` of the hashsums module rebound to it, `resolve()` physical like pathlib (link chains followed).
 """
 import vt.shims  # noqa: F401
-from vt.part import SEL, reach
+from vt.part import SEL, reach, note
 import posixpath
 import types
 from pathlib import PurePosixPath
@@ -231,6 +231,17 @@ def make_world(slots, kinds, cids, tids, out_exists):
     return desc
 
 
+def phys_norm(link_abs, text):
+    """The link's own target with '.', '..' normalised physically ('..' after a component that is a symlink to
+    a directory elsewhere is taken where that directory really is); other links on the way are not followed."""
+    cur = "/" if text.startswith("/") else _resolve(posixpath.dirname(link_abs))
+    for comp in text.split("/"):
+        if comp in ("", "."):
+            continue
+        cur = posixpath.dirname(_resolve(cur)) if comp == ".." else posixpath.join(cur, comp)
+    return posixpath.relpath(cur, _resolve(ROOT))
+
+
 def spec(desc):
     """Expected hashsum tree, or "ERR" if some symlink leads outside the directory."""
     out = {}
@@ -245,8 +256,10 @@ def spec(desc):
         elif d[0] == "f":
             cur[segs[-1]] = "rec:" + d[1].hex()
         else:
-            n = posixpath.normpath(d[1])
-            if n.startswith(".."):
+            ap = ROOT + "/" + rel
+            n = phys_norm(ap, WORLD[ap][1])
+            fin = posixpath.relpath(_resolve(posixpath.join(posixpath.dirname(ap), WORLD[ap][1])), _resolve(ROOT))
+            if n.startswith("..") or fin.startswith(".."):
                 return "ERR"
             cur[segs[-1]] = "symlink:" + n
     return out
@@ -287,6 +300,69 @@ def tree3(kx: int, ca: int, cd: int, cx: int, ta: int, td: int, tx: int, out_exi
     r1 = run(desc, present)
     r2 = run(desc, order2)
     return r1 == exp and r2 == exp
+
+
+def _ld_world(ti):
+    WORLD.clear()
+    WORLD[ROOT] = ("d",)
+    WORLD["/o"] = ("d",)
+    desc = {"f": ("f", b"x"), "sub": ("d",), "sub/f": ("f", b"xy"), "sub/deep": ("d",), "sd": ("l", "sub/deep"),
+            "l": ("l", LD_TARGETS[ti])}
+    for rel, d in desc.items():
+        WORLD[ROOT + "/" + rel] = d
+    return desc
+
+
+def realfs_linkdir(t, t2):
+    """Stage 2: the same two directories on a real file system (real pathlib/os/hashlib)."""
+    res = []
+    for ti in (t, t2):
+        desc = _ld_world(ti)
+        want = spec(desc)
+        got, _ = _real_run(dict(desc), dict(WORLD), None)
+        if (got == "ERR") != (want == "ERR"):
+            raise AssertionError("link %r: got %r want %r" % (LD_TARGETS[ti], got if got == "ERR" else got.get("l"), want if want == "ERR" else want["l"]))
+        if got != "ERR" and (got["l"] != want["l"] or got["sd"] != want["sd"]):
+            raise AssertionError("link %r recorded as %r, expected %r" % (LD_TARGETS[ti], got["l"], want["l"]))
+        res.append(got)
+    return True
+
+
+LD_TARGETS = ["sd/../f", "f", "sub/f", "sd/../../f", "sd/..", "sub", "sd/f", "sd/../deep", "./sd/.././f", "sub/deep/../f"]
+
+
+def linkdir(t: int, t2: int) -> bool:
+    """
+    pre: 0 <= t < 10 and 0 <= t2 < 10
+    post: _
+    """
+    # fixed directory with a symlink to a directory at another depth (sd -> sub/deep); one link `l` whose target
+    # (solver-chosen, realised) uses '..' after `sd`: the recorded target is the physically normalised one, and two
+    # directories that differ only in the target of `l` get equal trees exactly when those are equal
+    a = b = 0
+    for i in range(10):
+        if t == i:
+            a = i
+        if t2 == i:
+            b = i
+    reach()
+    import vt.part as P_
+    return P_.native_call("vt.harness.c19", "linkdir_native", a, b)
+
+
+def linkdir_native(t, t2):
+    order = ["f", "sub", "sub/f", "sub/deep", "sd", "l"]
+    d1 = _ld_world(t)
+    e1, r1 = spec(d1), run(d1, order[3:] + order[:3])
+    d2 = _ld_world(t2)
+    e2, r2 = spec(d2), run(d2, order)
+    if r1 != e1 or r2 != e2:
+        note(("hashsum tree differs from the specification", LD_TARGETS[t], r1 if r1 != e1 else r2, e1 if r1 != e1 else e2))
+        return False
+    if r1 == "ERR" or r2 == "ERR":
+        return True
+    same = phys_norm(ROOT + "/l", LD_TARGETS[t]) == phys_norm(ROOT + "/l", LD_TARGETS[t2])
+    return (r1 == r2) == same
 
 
 def _same(d1, d2):
